@@ -7,10 +7,10 @@ from .sib import canon, Subst, show
 LEVEL = ("Static sanitiser analysis of every write of a transformation scale: the element kernels through which DiagMassMatrix writes stds / inv_stds are "
          "abstractly interpreted (facts: not NaN, not infinite, not negative, not zero, numeric bounds) with the clamp bounds and fill values taken from "
          "all their call sites; every store of a scale is proven finite and strictly positive or is skipped so that the previous value stays (R1); the "
-         "two stores of one element are sqrt(v) and sqrt(1/v) of the same v, and inv_stds of set_transform is the reciprocal of stds (R3); the "
+         "two stores of one element are sqrt(v) and sqrt(1/v) of the same v, and inv_stds of set_transform is the reciprocal of stds (R3); all kernels clamp the same power of the scale - equal numeric range of the stored scales across sibling kernels (R7); the "
          "diagonal adaptation touches the transformation only when at least three draws are in the foreground estimator (R2); the initial matrix is "
          "written through the gradient kernel with constant positive clamp and fill and both estimators are seeded with the start point (R4); the "
-         "low-rank update is applied only after finiteness checks of every input and returns before any write otherwise (R5). Strict positivity of "
+         "low-rank update is applied only after finiteness checks of every input and returns before any write otherwise (R5), and the structural premise of the NaN-poisoning argument that protects the low-rank scales from zero is re-checked on every run (R6). Strict positivity of "
          "the low-rank scales rests on an assumption stated in the evidence (SVD / eigen decomposition fail on non-finite input); exact recovery of "
          "Gaussian moments is numerical and not decided.")
 EXPLANATION = ("Abstract interpretation (rules/absf.py) of the per-element closures in the CpuMath kernels on HIR with branch refinement by is_finite / == 0 "
@@ -109,7 +109,38 @@ def join_abs(a, b):
     return dict(A.TOP)
 
 
+RANGES = []
+
+
+def r7(F, R):
+    R.rule("C08-R7", "scale-range agreement between sibling kernels: every clamped store into stds (inv_stds) has the same numeric range in all element kernels - the "
+                     "clamp bounds limit one and the same quantity (the variance), so no kernel silently narrows the representable scales")
+    by = {}
+    for (kn, fld, lo, hi, site) in RANGES:
+        by.setdefault(fld, []).append((kn, lo, hi, site))
+    for fld, lst in sorted(by.items()):
+        ref = None
+        import math
+        groups = {}
+        for (kn, lo, hi, site) in lst:
+            keyr = (round(math.log10(lo), 6), round(math.log10(hi), 6))
+            groups.setdefault(keyr, []).append((kn, site))
+        if len(groups) == 1:
+            (k0, members), = groups.items()
+            R.ok("C08-R7", "range:%s" % fld, members[0][1], "%s in [1e%g, 1e%g] in all %d clamped stores of %d kernels" % (fld, k0[0], k0[1], len(lst), len({m[0] for m in members})))
+        else:
+            major = max(groups.items(), key=lambda kv: len({m[0] for m in kv[1]}))
+            for keyr, members in groups.items():
+                if keyr == major[0]:
+                    continue
+                for (kn, site) in members:
+                    R.bad("C08-R7", "range:%s:%s" % (fld, kn), site, "kernel %s can only produce %s in [1e%g, 1e%g] while its siblings allow [1e%g, 1e%g]: the clamp is applied to a "
+                          "different power of the scale (scales outside the narrower range are silently truncated)" % (kn, fld, keyr[0], keyr[1], major[0][0], major[0][1]))
+    R.floor("C08-R7", 2)
+
+
 def r1_r3(F, R):
+    del RANGES[:]
     R.rule("C08-R1", "every store into DiagMassMatrix.stds / inv_stds made by an element kernel is finite and strictly positive for arbitrary inputs (NaN, "
                      "infinite, zero, negative, huge), given the clamp bounds and fill values passed at all call sites; otherwise the element is left untouched")
     R.rule("C08-R3", "reciprocal pair: the two stores of one element are sqrt(v) and sqrt(recip(v)) of the same v; set_transform derives inv_stds by array_recip(stds)")
@@ -230,6 +261,9 @@ def analyse_kernel(F, R, kb, hit, wb, call_t):
             if not ss:
                 R.bad("C08-R1", key, site, "kernel never stores into %s" % fld)
                 continue
+            for v, n in ss:
+                if A.posfin(v) and v["lo"] is not None and v["hi"] is not None and v["lo"] != v["hi"]:
+                    RANGES.append((kb.fn_name, fld, v["lo"], v["hi"], "%s @%s" % (kb.path, loc(n.get("span")))))
             bad = [(v, n) for v, n in ss if not A.posfin(v)]
             if bad:
                 R.bad("C08-R1", key, "%s @%s" % (kb.path, loc(bad[0][1].get("span"))), "a store into %s %s (for some input element / call-site parameters): the scale can become "
@@ -380,6 +414,61 @@ def r5(F, R):
     R.floor("C08-R5", 2)
 
 
+def r6(F, R):
+    R.rule("C08-R6", "premise of the low-rank assumption: the per-coordinate scale sigma that the estimator returns as `stds` is also applied to the draw window as "
+                     "`sigma.recip()` unconditionally, so a zero / infinite / NaN sigma poisons the window with non-finite values and the decomposition (hence the "
+                     "update) is rejected; a guard on that reciprocal would let a zero scale through the finiteness-only gate of LowRankMassMatrix::update - unless "
+                     "update() itself checks strict positivity")
+    from .facts import hir_walk
+    cands = []
+    for b in F.bodies.values():
+        if b.kind != "fn" or not b.path.startswith("transform::adapt::low_rank::") or not b.hir:
+            continue
+        h = b.hir["value"]
+        stores = []
+        for x in hir_walk(h):
+            if x.get("k") == "Assign" and K.peel(x["l"]).get("k") == "Index":
+                rid = K.local_id(x["r"])
+                if rid is not None:
+                    stores.append((K.local_id(K.peel(x["l"])["e"]), rid, x))
+        if not stores:
+            continue
+        # locals defined as <scale>.recip()
+        for x in hir_walk(h):
+            if x.get("k") == "Let" and x.get("init") is not None and x["pat"].get("k") == "Binding":
+                uses_recip = any(y.get("k") == "MethodCall" and y.get("method") == "recip" for y in hir_walk(x["init"]))
+                if not uses_recip:
+                    continue
+                for (vec_id, scale_id, node) in stores:
+                    if any(K.local_id(y) == scale_id for y in hir_walk(x["init"]) if y.get("k") == "Path"):
+                        cands.append((b, x, scale_id, node))
+    pos_check = False
+    for u in F.inherent_methods("LowRankMassMatrix", "update"):
+        for bb, t in u.calls():
+            nm = (t["callee"].get("name") or "")
+            if "positive" in nm:
+                pos_check = True
+    if not cands:
+        if pos_check:
+            R.ok("C08-R6", "lowrank:positivity-check", "LowRankMassMatrix::update", "update() checks strict positivity itself")
+        else:
+            R.bad("C08-R6", "lowrank:premise", "transform::adapt::low_rank", "no estimator function found that stores a scale and rescales the window by its reciprocal (anchor), "
+                  "and update() has no positivity check")
+        return
+    for (b, let, scale_id, node) in cands:
+        init = K.peel(let["init"])
+        site = "%s @%s" % (b.path, loc(let.get("span") or b.span))
+        plain = init.get("k") == "MethodCall" and init.get("method") == "recip" and K.local_id(init["recv"]) == scale_id
+        if plain:
+            R.ok("C08-R6", b.path + ":unguarded-recip", site, "window scale = sigma.recip(), unconditional: degenerate sigma makes the window non-finite")
+        elif pos_check:
+            R.ok("C08-R6", b.path + ":unguarded-recip", site, "reciprocal is guarded, but update() checks strict positivity")
+        else:
+            R.bad("C08-R6", b.path + ":unguarded-recip", site, "the reciprocal of the scale is guarded / rewritten: a zero scale no longer poisons the window, passes the "
+                  "finiteness-only gate of LowRankMassMatrix::update and is installed (stds = 0, inv_stds = inf, logdet = inf)")
+    R.floor("C08-R6", 1)
+
+
 def new_writers(F, R):
     """R1 completeness: no other function obtains `&mut` to stds / inv_stds."""
     adt = diag_adt(F)
@@ -395,10 +484,12 @@ def new_writers(F, R):
 
 def run(F, R, config=None):
     r1_r3(F, R)
+    r7(F, R)
     new_writers(F, R)
     r2(F, R)
     r4(F, R)
     r5(F, R)
+    r6(F, R)
     R.assume("user-supplied Math implementations other than CpuMath are outside the analysed world")
 
 
